@@ -299,6 +299,7 @@ def main(tier):
     import rmerge
     rmerge.rule_rmerge(ck, units, control=cu['controls'])
     rmerge.rule_factor_order(ck, units)
+    rmerge.rule_scratch_fits(ck, units)
     ck.assumptions += ['that the kernels compute the products, sums and transposes their definitions prescribe (values, well-formed CRS structure), merge_rows of the row-merge kernel, the Gershgorin / power-method bounds '
                        'themselves and the block-to-pointwise reduction are NOT decided: they quantify over values',
                        'operator* of the value types is the algebraic product']
